@@ -94,6 +94,17 @@ impl<'a> Dec for std::borrow::Cow<'a, str> {
     }
 }
 
+impl<'a> Enc for std::borrow::Cow<'a, [i32]> {
+    fn enc(&self) -> Value {
+        self.as_ref().to_vec().enc()
+    }
+}
+impl<'a> Dec for std::borrow::Cow<'a, [i32]> {
+    fn dec(v: &Value) -> Self {
+        std::borrow::Cow::Owned(<Vec<i32> as Dec>::dec(v))
+    }
+}
+
 impl<T: Enc> Enc for Vec<T> {
     fn enc(&self) -> Value {
         Value::Array(self.iter().map(|x| x.enc()).collect())
